@@ -37,6 +37,7 @@ mutual
     | .child h fs _ => h.tag :: (h.extra.map (·.1) ++ h.extra.map (·.2) ++ namesFs fs)
     | .many h fs _ => h.tag :: (h.extra.map (·.1) ++ h.extra.map (·.2) ++ namesFs fs)
     | .strSet h => [h.tag]
+    | .formValue a _ _ vh _ _ oh ofs _ => a :: vh.tag :: oh.tag :: (boolTrues ++ ["0".toList] ++ namesFs ofs)
   def namesFs : List Field → List Str
     | [] => []
     | f :: fs => namesF f ++ namesFs fs
@@ -49,6 +50,7 @@ mutual
     | .child h fs _ => h.ns :: nssFs fs
     | .many h fs _ => h.ns :: nssFs fs
     | .strSet h => [h.ns]
+    | .formValue _ _ _ vh _ _ oh ofs _ => vh.ns :: oh.ns :: nssFs ofs
     | _ => []
   def nssFs : List Field → List Str
     | [] => []
@@ -77,9 +79,9 @@ def checkWith (lits nsNames : List String) (ig : Ignore) (S : Schema) : Bool :=
   && ((nss S).all fun n => srcNs.contains n || (ig.nsSchemaOnly.map String.toList).contains n)
   && (srcNs.all fun n => (nss S).contains n || (ig.nsSrcOnly.map String.toList).contains n)
 
-/-- literals of QXmppDataForm::parse / toXml that belong to what the schema does NOT model: boolean / multi / list field
-types (`"1"`, `"true"`, `"0"`, `<option/>`) and `<media/>` -/
-def formSrcOnly : List String := ["Unknown form type", "1", "true", "0", "", "-1", "media", "height", "width", "uri", "option"]
+/-- literals of QXmppDataForm::parse / toXml that belong to what the schema does NOT model (`<media/>`), a log message
+and two default values -/
+def formSrcOnly : List String := ["Unknown form type", "", "-1", "media", "height", "width", "uri"]
 
 /-- the explicit per-class exceptions (reviewed by hand; everything not listed must match exactly) -/
 def ignoreTable : List (String × Ignore) := [
